@@ -91,6 +91,13 @@ func main() {
 				fmt.Printf("  %s %-70s %s %s %.2fs  %s\n", mark, o.Name, o.Result.Status, o.Result.Solver, o.Result.Seconds, o.Pos)
 				if o.Status != "discharged" {
 					fmt.Printf("       %s\n", o.Text)
+					if strings.HasPrefix(o.Result.Output, "conjunct") {
+						out := o.Result.Output
+						if len(out) > 700 {
+							out = out[:700]
+						}
+						fmt.Printf("       %s\n", out)
+					}
 				}
 			}
 		}
